@@ -292,6 +292,9 @@ def t_clip(interp: Any, args: List[Any], kwargs: Dict[str, Any]) -> Any:
     if not isinstance(x, BitTensor) or x.dtype not in FP_SORTS:
         raise OutOfReach("clip on non-float")
     for b in (lo, hi):
+        if isinstance(b, int) and not isinstance(b, bool) and not (-(2**63) <= b < 2**63):
+            # ASSUMED torch.clamp: a Python int bound is converted to a C int64 (validated: group bits)
+            raise PyRaise("OverflowError", "int too big to convert")
         if not exactly_representable(x.dtype, b):
             interp.ctx.notes.append(f"clip bound {b} rounded to {x.dtype}")
     l, h = const_in(x.dtype, lo), const_in(x.dtype, hi)
